@@ -75,7 +75,7 @@ Theorem copy_spec (w w' : world) i attr :
   exists so co, get_mesh w i = Some so /\ wobjs w' = wobjs w ++ [co]
     /\ coords O (mheap (wmem w')) co = coords O (mheap (wmem w)) so
     /\ oedges co = oedges so /\ ofaces co = ofaces so /\ occells co = occells so /\ ocorn co = ocorn so
-    /\ okind co = okind so
+    /\ oattr co = (if attr then oattr so else []) /\ okind co = okind so
     /\ NoDup (ocells co) /\ (forall c, In c (ocells co) -> ~ allocated (wmem w) c)
     /\ frame O (wmem w) (wmem w').
 Proof.
@@ -83,7 +83,7 @@ Proof.
   rewrite copy_is_deep in Hs. destruct (take O Copy (wmem w) (ocells so)) as [m1 cs] eqn:E.
   inversion Hs; subst; clear Hs. apply take_copy_fresh in E as (Hfb & Hf & Hmap).
   rewrite copy_plumbing_is_identity.
-  exists so, (with_cells so cs). repeat split; auto; try apply Hf; try apply Hfb.
+  eexists so, _. split; [reflexivity|]. split; [reflexivity|]. simpl. repeat split; auto; try apply Hf; try apply Hfb.
   intros c Hc. eapply fresh_block_not_allocated; eauto.
 Qed.
 
@@ -93,7 +93,7 @@ Theorem merge_spec (w w' : world) ms :
   exists ins mo, get_meshes w ms = Some ins /\ wobjs w' = wobjs w ++ [mo]
     /\ coords O (mheap (wmem w')) mo = flat_map (coords O (mheap (wmem w))) ins
     /\ oedges mo = shifted sel_edges 0 ins /\ ofaces mo = shifted sel_faces 0 ins /\ occells mo = shifted sel_cells 0 ins
-    /\ ocorn mo = merge_corn 0 0 0 ins /\ okind mo = max_dim ins
+    /\ ocorn mo = merge_corn 0 0 0 ins /\ oattr mo = [] /\ okind mo = max_dim ins
     /\ NoDup (ocells mo) /\ (forall c, In c (ocells mo) -> ~ allocated (wmem w) c)
     /\ frame O (wmem w) (wmem w').
 Proof.
@@ -121,7 +121,7 @@ Proof.
   destruct (is_mesh ao); [discriminate|]. rewrite from_arrays_copies in Hs.
   destruct (take O Copy (wmem w) (ocells ao)) as [m1 cs] eqn:E. inversion Hs; subst; clear Hs.
   apply take_copy_fresh in E as (Hfb & Hf & Hmap).
-  exists ao, (mkobj cs e f c cn k). repeat split; auto; try apply Hf; try apply Hfb.
+  exists ao, (mkobj cs e f c cn [] k). repeat split; auto; try apply Hf; try apply Hfb.
   intros x Hx. eapply fresh_block_not_allocated; eauto.
 Qed.
 
@@ -133,7 +133,7 @@ Theorem ring_spec (w w' : world) N nc open vs e f cn :
 Proof.
   intros Hs. cbn [step] in Hs. destruct (ring_cells O (wmem w) N nc open vs) as [[m1 cs]|] eqn:E; [|discriminate].
   inversion Hs; subst; clear Hs. apply ring_cells_spec in E as (A & B & C & D & F).
-  exists (mkobj cs e f [] cn 2). repeat split; auto; apply C.
+  exists (mkobj cs e f [] cn [] 2). repeat split; auto; apply C.
 Qed.
 
 (* ---- histories that never target object j leave its list of cells alone *)
